@@ -4,6 +4,7 @@ import MorfuseModel.Unwind.Lemmas
 import MorfuseModel.Unwind.Spin
 import MorfuseModel.Unwind.Timing
 import MorfuseModel.Unwind.Potential
+import MorfuseModel.Unwind.ZeroWait
 /-!
 # C14 — runaway and over-deep scripts are stopped
 
@@ -633,8 +634,8 @@ theorem W_le_pow (N : Nat) : ∀ h, W N h ≤ 9 * (N + 1) ^ h
     thread is current. -/
 theorem C14_unwind_call_terminates_nested (E : Env) (δ : Nat) (hcls : Nest E.prog = true) (hp : E.cfg.prot = true)
     (hL : E.cfg.maxExec ≠ 0) (hδ : 0 < δ) (hinc : ∀ i, E.inc i ≥ δ) (s0 : St) (label : Nat)
-    (hc : s0.cur = none) (hd : s0.depth = 0) (hj : NoJoin s0.threads) :
-    ∃ n, n ≤ nestBound E.cfg.maxExec δ E.cfg.maxDepth s0.timer.elems.length ∧
+    (hc : s0.cur = none) (hd : s0.depth = 0) (hj : NoJoin s0.threads) (hwait : WaitOK E s0) :
+    ∃ n, n ≤ nestBound E.cfg.maxExec δ E.cfg.maxDepth (dueCount s0.timer) ∧
       halted (run E n (startCall E s0 label)) = true ∧
       ((run E n (startCall E s0 label)).stack = [] →
         (run E n (startCall E s0 label)).depth = 0 ∧ (run E n (startCall E s0 label)).cur = none) := by
@@ -654,13 +655,17 @@ theorem C14_unwind_call_terminates_nested (E : Env) (δ : Nat) (hcls : Nest E.pr
     · rw [h1] at hst; cases hst
     · rw [h1] at hst; cases hst
       simp only [Nat.zero_mul]; exact Nat.pos_of_ne_zero hL
-  have hgood : Good E δ (startCall E s0 label) := ⟨hinv, startCall_allOK E δ hL hinc s0 label, hgs, htf⟩
+  have hgood : Good E δ (startCall E s0 label) := ⟨hinv, startCall_allOK E δ hL hinc s0 label, hgs, htf, by
+    intro l pc ms h
+    have hc' : clocks (startCall E s0 label) = clocks s0 := by unfold startCall; rw [enterSei_clocks]; rfl
+    simp only [clocks, Prod.mk.injEq] at hc'
+    rw [hc'.1, hc'.2]; exact hwait l pc ms h⟩
   have hphi : phi (E.cfg.maxExec / δ + 1) E.cfg.maxDepth (startCall E s0 label) ≤
-      nestBound E.cfg.maxExec δ E.cfg.maxDepth s0.timer.elems.length := by
+      nestBound E.cfg.maxExec δ E.cfg.maxDepth (dueCount s0.timer) := by
     have hT := Nat.mul_le_mul_right (Cw (E.cfg.maxExec / δ + 1) E.cfg.maxDepth) htl
     have hW3 := W_ge3 (E.cfg.maxExec / δ + 1) E.cfg.maxDepth
-    have hmono : s0.timer.elems.length * ((E.cfg.maxExec / δ + 1) * W (E.cfg.maxExec / δ + 1) E.cfg.maxDepth + 3) ≤
-        s0.timer.elems.length * ((E.cfg.maxExec / δ + 1) * W (E.cfg.maxExec / δ + 1) E.cfg.maxDepth + 4) :=
+    have hmono : dueCount s0.timer * ((E.cfg.maxExec / δ + 1) * W (E.cfg.maxExec / δ + 1) E.cfg.maxDepth + 3) ≤
+        dueCount s0.timer * ((E.cfg.maxExec / δ + 1) * W (E.cfg.maxExec / δ + 1) E.cfg.maxDepth + 4) :=
       Nat.mul_le_mul_left _ (by omega)
     unfold nestBound
     rw [Nat.add_mul, Nat.one_mul]
@@ -681,30 +686,29 @@ theorem C14_unwind_call_terminates_nested (E : Env) (δ : Nat) (hcls : Nest E.pr
 /-- the same for a frame (`ScriptContext::Execute`): the threads the scheduler resumes from the timer list -/
 theorem C14_unwind_frame_terminates_nested (E : Env) (δ : Nat) (hcls : Nest E.prog = true) (hp : E.cfg.prot = true)
     (hL : E.cfg.maxExec ≠ 0) (hδ : 0 < δ) (hinc : ∀ i, E.inc i ≥ δ) (s0 : St)
-    (hc : s0.cur = none) (hd : s0.depth = 0) (hj : NoJoin s0.threads) :
-    ∃ n, n ≤ nestBound E.cfg.maxExec δ E.cfg.maxDepth s0.timer.elems.length ∧
+    (hc : s0.cur = none) (hd : s0.depth = 0) (hj : NoJoin s0.threads) (hwait : WaitOK E (startExecute E s0)) :
+    ∃ n, n ≤ nestBound E.cfg.maxExec δ E.cfg.maxDepth (dueCount (startExecute E s0).timer) ∧
       halted (run E n (startExecute E s0)) = true := by
   have C : Ctx E δ := ⟨hcls, hp, hL, hδ, hinc⟩
   have hinv : Inv 0 (startExecute E s0) := by rw [← hd]; exact startExecute_inv E s0 hc
   have hshape : ((startExecute E s0).stack = [.ctxExec] ∨ (startExecute E s0).stack = [.execRunning, .ctxExec]) ∧
-      (startExecute E s0).threads = s0.threads ∧ (startExecute E s0).exc = none ∧
-      (startExecute E s0).timer.elems = s0.timer.elems := by
+      (startExecute E s0).threads = s0.threads ∧ (startExecute E s0).exc = none := by
     simp only [startExecute, execRunningCall]
-    (repeat' split) <;> simp [tick, Sched.Timer.setTime]
-  obtain ⟨hstk, hthr, hexc, htim⟩ := hshape
+    (repeat' split) <;> simp [tick]
+  obtain ⟨hstk, hthr, hexc⟩ := hshape
   have hgs : GoodS (startExecute E s0) := by
     refine ⟨?_, by rw [hthr]; exact hj, by intro e he; rw [hexc] at he; cases he⟩
     rcases hstk with h | h <;> (rw [h]; simp [StackG, topOK, lowOK])
   have htf : TopFetch δ E.cfg.maxExec (startExecute E s0) := by
     intro t dl ct n rest hst _
     rcases hstk with h | h <;> (rw [h] at hst; cases hst)
-  have hgood : Good E δ (startExecute E s0) := ⟨hinv, startExecute_allOK E δ s0, hgs, htf⟩
+  have hgood : Good E δ (startExecute E s0) := ⟨hinv, startExecute_allOK E δ s0, hgs, htf, hwait⟩
   have hphi : phi (E.cfg.maxExec / δ + 1) E.cfg.maxDepth (startExecute E s0) ≤
-      nestBound E.cfg.maxExec δ E.cfg.maxDepth s0.timer.elems.length := by
+      nestBound E.cfg.maxExec δ E.cfg.maxDepth (dueCount (startExecute E s0).timer) := by
     unfold phi nestBound Cw
-    rw [hexc, htim]
+    rw [hexc]
     generalize (E.cfg.maxExec / δ + 1) * W (E.cfg.maxExec / δ + 1) E.cfg.maxDepth = X
-    generalize s0.timer.elems.length = T
+    generalize dueCount (startExecute E s0).timer = T
     simp only [Option.isSome_none, Bool.false_eq_true, if_false]
     split
     · exact Nat.zero_le _
@@ -748,32 +752,122 @@ theorem run_of_halted (E : Env) : ∀ (k : Nat) (s : St), halted s = true → ru
     clock +1 ms per reading -/
 def exZero : Env := { cfg := { prot := true, maxExec := 20, maxDepth := 5 }, prog := [[.wait 0, .jmp 0]], inc := fun _ => 1 }
 
+/-- **A loop that yields with zero delay never returns to the host — protection on or off.**
+    `l0: wait 0; goto l0` (what `while (1) { wait 0 }` does, opcode filler aside), any limit, any clock
+    whose single increments stay below the limit (`maxExecutionTime = 0 ∨ inc i < maxExecutionTime`: the one
+    check that is ever evaluated — after the jump — compares a reading taken one increment after the
+    deadline was set), started in a quiescent state with an empty timer list and `scaledTime ≤ m_time`:
+    after every number of steps the host call has not returned and no exception has been raised.  Every
+    `wait 0` re-times the thread as due; `ExecuteRunning`, called at the end of the same
+    `ScriptExecuteInternal`, resumes it at once with a **fresh deadline**, so no activation ever reaches its
+    limit.  Proof: the cycle invariant `ZW` over the seven state shapes of one round (`Unwind/ZeroWait.lean`).
+    The engine behaves the same way (DESIGN.md 12.2; finite version in
+    corpus/C14/zero-wait-fresh-deadline.json); this is why the class of the termination theorems excludes
+    zero-delay yields. -/
+theorem C14_unwind_zero_wait_never_returns (E : Env) (hprog : E.prog.getD 0 [] = [.wait 0, .jmp 0])
+    (hsmall : ∀ i, E.cfg.maxExec = 0 ∨ E.inc i < E.cfg.maxExec) (s0 : St)
+    (hfresh : find s0.threads s0.nextTid = none) (hd : s0.depth = 0) (hub : s0.ub = false) (hc : s0.cur = none)
+    (htm : s0.timer.elems = []) (hs : s0.scaled ≤ s0.timer.mtime) (k : Nat) :
+    halted (run E k (startCall E s0 0)) = false ∧ (run E k (startCall E s0 0)).exc = none := by
+  have h := zw_run E hprog hsmall s0.nextTid k _ (zw_start E s0 hfresh hd hub hc htm hs)
+  exact ⟨zw_not_halted h, by cases h <;> assumption⟩
+
+/-- non-vacuity: `exZero` (protection on, 20 ms limit, clock +1) meets the hypotheses; after 300 steps the
+    injected clock is far beyond the limit and the host call's frame is still on the stack -/
+example : exZero.prog.getD 0 [] = [.wait 0, .jmp 0] ∧ (∀ i, exZero.cfg.maxExec = 0 ∨ exZero.inc i < exZero.cfg.maxExec) :=
+  ⟨rfl, fun _ => Or.inr (by show 1 < 20; omega)⟩
 set_option maxRecDepth 1000000 in
-/-- **A loop that yields with zero delay never returns to the host although protection is on** — full
-    statement: `∀ k, halted (run exZero k (startCall exZero {} 0)) = false`.  Every `wait 0` re-times the thread
-    as due; `ExecuteRunning`, called at the end of the same `ScriptExecuteInternal`, resumes it at once with
-    a fresh deadline, so no activation ever reaches its limit.  *Proved* (`_partial`): the host call has not
-    returned after any `k ≤ 600` steps; at step 600 the injected clock shows 401 ms — twenty
-    times the limit —, no exception was raised, exactly one thread exists and the native stack still holds the
-    host call's `ScriptThread::Execute` frame.  *Missing* for the full statement: the cycle invariant over the
-    seven state shapes of one round (the machine is not periodic: the clock differs in every round).  The engine
-    behaves the same way (DESIGN.md 12.2; finite version in corpus/C14/zero-wait-fresh-deadline.json: 40 rounds,
-    491 ms in one call under a 20 ms limit, engine == model); this is why `Nest` excludes `wait` / `waitthread`. -/
-theorem C14_unwind_zero_wait_never_returns_partial :
-    (∀ k, k ≤ 600 → halted (run exZero k (startCall exZero {} 0)) = false) ∧
-    (run exZero 600 (startCall exZero {} 0)).now = 401 ∧ (run exZero 600 (startCall exZero {} 0)).exc = none ∧
-    (run exZero 600 (startCall exZero {} 0)).threads.length = 1 ∧
-    (run exZero 600 (startCall exZero {} 0)).stack.getLast? = some .thrExec := by
-  have h600 : halted (run exZero 600 (startCall exZero {} 0)) = false := by decide
-  refine ⟨?_, by decide, by decide, by decide, by decide⟩
+example : (run exZero 300 (startCall exZero {} 0)).now > 10 * exZero.cfg.maxExec ∧
+    (run exZero 300 (startCall exZero {} 0)).stack.getLast? = some .thrExec ∧
+    (run exZero 300 (startCall exZero {} 0)).threads.length = 1 := by decide
+
+/-! ### `waitthread`: a purely positional exclusion does not suffice -/
+
+/-- an opcode that re-times the executing thread with zero delay: `wait` (delay 0 or small), `waitthread` -/
+def isYield : Op → Bool
+  | .wait _ => true
+  | .spawn _ true => true
+  | _ => false
+
+/-- position `i` of `code` lies inside a backward-jump cycle: some jump at a position `j ≥ i` targets `k ≤ i` -/
+def inCycle (code : List Op) (i : Nat) : Bool :=
+  (List.range code.length).any (fun j => decide (i ≤ j) &&
+    match code.getD j .done with
+    | .jmp k => decide (k ≤ i)
+    | .loopTest k => decide (k ≤ i)
+    | _ => false)
+
+/-- the natural weakening of `Nest`'s exclusion: yields are allowed outside backward-jump cycles -/
+def NoYieldInCycle (prog : Prog) : Bool :=
+  prog.all (fun code => (List.range code.length).all (fun i => !(isYield (code.getD i .done) && inCycle code i)))
+
+/-- `a: thread b; end` / `b: waitthread c; thread a; end` / `c: end` — no backward jump anywhere -/
+def exWtRec : Env :=
+  { cfg := { prot := true, maxExec := 50, maxDepth := 5 }, inc := fun _ => 1,
+    prog := [[.spawn 1 false, .done], [.spawn 2 true, .spawn 0 false, .done], [.done]] }
+
+set_option maxRecDepth 1000000 in
+/-- **"No `waitthread` inside a backward-jump cycle" is not enough.**  Full statement: `exWtRec` satisfies
+    `NoYieldInCycle` and `∀ k, halted (run exWtRec k (startCall exWtRec {} 0)) = false`: the re-timed `b` is resumed by
+    `ExecuteRunning` inside the same host call with a fresh deadline and spawns the next `a`, whose `b` is
+    re-timed in turn — a zero-delay self-resumption through the *label* graph, nesting never above 4, three
+    threads alive at any time.  *Proved* (`_partial`): the predicate holds, and the host call has not returned
+    after any `k ≤ 1000` steps; at step 1000 the clock shows 705 ms (limit 50 ms, protection on), no exception
+    was raised, 153 threads have been created, 3 are alive, the nesting counter is 4.  *Missing* for the ∀k
+    form: a cycle invariant over the ~40 shapes of one round with fresh thread ids.  Consequence: a decidable
+    class that admits `waitthread` must look at the call graph (e.g. no label that contains a `waitthread`
+    is reachable from the code after it); `Nest` excludes `waitthread` altogether. -/
+theorem C14_unwind_waitthread_recursion_never_returns_partial :
+    NoYieldInCycle exWtRec.prog = true ∧
+    (∀ k, k ≤ 1000 → halted (run exWtRec k (startCall exWtRec {} 0)) = false) ∧
+    (run exWtRec 1000 (startCall exWtRec {} 0)).now = 705 ∧ (run exWtRec 1000 (startCall exWtRec {} 0)).exc = none ∧
+    (run exWtRec 1000 (startCall exWtRec {} 0)).nextTid = 154 ∧ (run exWtRec 1000 (startCall exWtRec {} 0)).threads.length = 3 ∧
+    (run exWtRec 1000 (startCall exWtRec {} 0)).depth = 4 := by
+  have hK : halted (run exWtRec 1000 (startCall exWtRec {} 0)) = false := by decide
+  refine ⟨by decide, ?_, by decide, by decide, by decide, by decide, by decide⟩
   intro k hk
-  cases hh : halted (run exZero k (startCall exZero {} 0)) with
+  cases hh : halted (run exWtRec k (startCall exWtRec {} 0)) with
   | false => rfl
   | true =>
-    have := run_of_halted exZero (600 - k) _ hh
-    rw [← run_add, show k + (600 - k) = 600 by omega] at this
-    rw [this] at h600
-    rw [hh] at h600
-    cases h600
+    have := run_of_halted exWtRec (1000 - k) _ hh
+    rw [← run_add, show k + (1000 - k) = 1000 by omega] at this
+    rw [this, hh] at hK
+    cases hK
+
+/-! ### `wait` with a delay that is not due before the next frame (round 4) -/
+
+/-- decidable form of `WaitOK` -/
+def waitOKb (prog : Prog) (mtime scaled : Nat) : Bool :=
+  prog.all (fun code => code.all (fun op => match op with | .wait ms => decide (mtime < scaled + ms) | _ => true))
+
+theorem waitOK_of_b (E : Env) (s : St) (h : waitOKb E.prog s.timer.mtime s.scaled = true) : WaitOK E s := by
+  intro l pc ms hop
+  unfold waitOKb at h
+  rw [List.all_eq_true] at h
+  by_cases hl : l < E.prog.length
+  · have hc := h (E.prog[l]) (List.getElem_mem hl)
+    rw [List.all_eq_true] at hc
+    have e1 : E.prog.getD l [] = E.prog[l] := by simp [List.getD, hl]
+    rw [e1] at hop
+    by_cases hp : pc < (E.prog[l]).length
+    · have e2 : (E.prog[l]).getD pc .done = (E.prog[l])[pc] := by simp [List.getD, hp]
+      rw [e2] at hop
+      have := hc _ (List.getElem_mem hp)
+      rw [hop] at this
+      simpa using this
+    · have e2 : (E.prog[l]).getD pc .done = .done := by simp [List.getD, hp]
+      rw [e2] at hop; cases hop
+  · have e1 : E.prog.getD l [] = [] := by simp [List.getD, hl]
+    rw [e1] at hop; cases hop
+
+/-- the late variant with a sentinel is in the class: label 0 waits 5 ms and then runs away, label 1 is the
+    sentinel (`wait 9`); from the fresh state both delays are not due before the next frame -/
+def exLateN : Env :=
+  { cfg := { prot := true, maxExec := 3, maxDepth := 2 }, prog := [[.wait 5, .nop, .jmp 1], [.wait 9, .done]], inc := fun _ => 1 }
+example : Nest exLateN.prog = true := by decide
+example : WaitOK exLateN {} := waitOK_of_b _ _ (by decide)
+set_option maxRecDepth 100000 in
+example : halted (run exLateN 8 (startCall exLateN {} 0)) = true ∧ (run exLateN 8 (startCall exLateN {} 0)).exc = none ∧
+    (run exLateN 8 (startCall exLateN {} 0)).timer.elems = [(1, 5)] ∧ dueCount (run exLateN 8 (startCall exLateN {} 0)).timer = 0 := by decide
 
 end Morfuse.Unwind
